@@ -5,6 +5,7 @@ import shutil
 from vlib import core, prog, physics, h5oracle
 
 ASSUME = [
+    "two groups in 16 are 'scale' groups: a grid of 513-1030 cells (a handful of steps), and 70000 steps of a deterministically modulated RF map with 10000 to more than 70000 steps between two outputs (/RFKicks is part of the comparison)",
     "all runs of a group share one FFT wisdom directory that was warmed up by a discarded run (same wisdom => same plans); nothing is claimed across different wisdom files",
     "/Particles is compared only between runs with the same tracking file and a deterministic tracking model (FPTrack 0-2): the stochastic model seeds itself from random_device",
     "RF noise off (the property excludes noise); deterministic phase modulation is used in a fifth of the groups, incl. /RFKicks in the comparison",
@@ -61,6 +62,22 @@ def gen_group(seed, g, tier):
         if r.chance(0.3):
             v["_outname"] = r.choice(["sub/dir/result.h5", "x.hdf5", "a b.h5"])
         variants.append(v)
+    if g % 16 == 11:
+        # scale: a grid beyond 512 cells, a handful of steps (strip-mined / blocked loops over rows and columns)
+        for k in ("PhaseSpaceShiftX", "DampingTime"):
+            o.pop(k, None)
+        o.update(GridSize=r.choice([513, 1024, 1030]), StepsPerTs=1000, rotations=0.006, BunchCurrent=[o["BunchCurrent"][0]], _scale="grid")
+        o.pop("HarmonicNumber", None)
+        variants = [dict(outstep=1, SavePhaseSpace=1), dict(outstep=1, SavePhaseSpace=1), dict(outstep=2, SavePhaseSpace=2), dict(outstep=0, SavePhaseSpace=0),
+                    dict(outstep=3, SavePhaseSpace=1), dict(outstep=5, SavePhaseSpace=0, _tracking=500, FPTrack=1)]
+    if g % 16 == 3:
+        # scale: tens of thousands of steps between two outputs, with a dynamic (deterministically modulated) RF map that keeps a per-step history
+        o = dict(GridSize=32, StepsPerTs=r.choice([35000, 17500]), rotations=2.0, VacuumGap=0, BunchCurrent=[1e-3], RenormalizeCharge=r.choice([-1, 0, 30000]),
+                 LinearRF=r.chance(0.5), RFPhaseModAmplitude=r.choice([0.5, 2.0]), RFPhaseModFrequency=16000.0, _scale="steps")
+        if o["StepsPerTs"] == 17500:
+            o["rotations"] = 4.0
+        variants = [dict(outstep=20000, SavePhaseSpace=0), dict(outstep=20000, SavePhaseSpace=0), dict(outstep=0, SavePhaseSpace=0), dict(outstep=70001, SavePhaseSpace=1),
+                    dict(outstep=34999, SavePhaseSpace=2), dict(outstep=10000, SavePhaseSpace=0, verbose=True)]
     return o, variants
 
 
@@ -71,6 +88,7 @@ def run_group(args):
     xdg = os.path.join(gd, "xdg")
     os.makedirs(xdg, exist_ok=True)
     unstable = bool(base.pop("_unstable", False))
+    scale = base.pop("_scale", None)
     P = physics.derive(base)
     if P["nbuckets"] > 1 and (P["spacing_bins"] < P["n"] or P["wake_N"] > 70000):
         return dict(g=g, skip=True)
@@ -113,6 +131,7 @@ def run_group(args):
         out["runs"] += 1
     ref = files[0]
     out["unstable"] = unstable
+    out["scale"] = scale
     if ref is not None:
         # every run of the group simulates the same number of steps: its last record carries the same time stamp
         def last_step(h):
@@ -137,7 +156,7 @@ def run_group(args):
             for b in bad:
                 kind = "repeat" if vi == 1 else "observation"
                 if (b["dataset"] == "/PhaseSpace/data" and b["step"] == 0 and base.get("RenormalizeCharge", 0) > 0
-                        and v.get("SavePhaseSpace", 0) == 0):
+                        and (v.get("SavePhaseSpace", 0) == 0) != (ref[1].get("SavePhaseSpace", 0) == 0)):
                     # the initial-condition record of SavePhaseSpace=0 is written before the loop, i.e. before
                     # the renormalisation of step 0; check that this is the only difference, then use its own key
                     pa = h5oracle.step_index(ref[0], P["steps"], "/PhaseSpace/axis0")
@@ -146,7 +165,8 @@ def run_group(args):
                     B = h["/PhaseSpace/data"][pb[0]].astype("float64")
                     later_ok = all(h5oracle.bits_equal(ref[0]["/PhaseSpace/data"][pa[st]], h["/PhaseSpace/data"][pb[st]])
                                    for st in set(pa) & set(pb) if st != 0)
-                    ratio = A[B != 0] / B[B != 0]
+                    nz = (A != 0) & (B != 0)
+                    ratio = A[nz] / B[nz]
                     if later_ok and ratio.size and float(ratio.max() - ratio.min()) < 1e-6:
                         out["viol"].append(("C12:initial_record_before_step0_renormalisation",
                                             "t=0 phase space saved before (SavePhaseSpace=0) vs after (SavePhaseSpace>0) the renormalisation of step 0",
@@ -155,6 +175,20 @@ def run_group(args):
                 out["viol"].append(("C12:%s:%s" % (kind, b["dataset"]),
                                     "record differs between two runs that differ only in how they are observed" if vi > 1 else "two identical runs give different physics datasets",
                                     dict(base=base, variant=v, step=b["step"], dataset=b["dataset"], cmd=cmd, reference_cmd=ref[2])))
+        # the per-step record of what the RF map applied (one row per simulated step, whatever the cadence)
+        if base.get("RFPhaseModAmplitude") and "/RFKicks/data" in ref[0]:
+            K0 = ref[0]["/RFKicks/data"]
+            for vi in range(1, len(files)):
+                if files[vi] is None or "/RFKicks/data" not in files[vi][0]:
+                    continue
+                h, v, cmd = files[vi]
+                K = h["/RFKicks/data"]
+                out["compared"] += 1
+                out["rfkick_arrays"] = out.get("rfkick_arrays", 0) + 1
+                if K.shape != K0.shape or not h5oracle.bits_equal(K0[...], K[...]):
+                    out["viol"].append(("C12:%s:/RFKicks/data" % ("repeat" if vi == 1 else "observation"),
+                                        "the per-step record of the applied RF modulation differs between runs that differ only in how they are observed",
+                                        dict(base=base, variant=v, shape=list(K.shape), reference_shape=list(K0.shape), cmd=cmd, reference_cmd=ref[2])))
         # particles: between runs with identical deterministic tracking set-up
         seen = {}
         for vi in range(len(files)):
@@ -191,9 +225,12 @@ def run(ctx):
         ctx.ev("final_steps_compared", res.get("final_steps_compared", 0))
         if res.get("unstable"):
             ctx.ev("groups_of_diverging_runs")
+        if res.get("scale"):
+            ctx.ev("groups_at_scale." + res["scale"])
+        ctx.ev("rf_kick_records_compared_whole", res.get("rfkick_arrays", 0))
         for key, what, w in res["viol"]:
             ctx.violation(key, what, w)
         for i in res["incon"]:
             ctx.inconcl(i)
         ctx.sample(dict(base=res["base"], runs=res["runs"], records_compared=res["compared"]))
-    ctx.min_events = {"runs": 4 * n, "records_compared_bitwise": 100 * n, "final_steps_compared": 3 * n, "groups_of_diverging_runs": 1}
+    ctx.min_events = {"runs": 4 * n, "records_compared_bitwise": 100 * n, "final_steps_compared": 3 * n, "groups_of_diverging_runs": 1, "groups_at_scale.grid": 1, "groups_at_scale.steps": 1, "rf_kick_records_compared_whole": 5}
